@@ -5,6 +5,7 @@ import (
 	"go/token"
 	"go/types"
 	"os"
+	"regexp"
 	"sort"
 	"strings"
 
@@ -719,7 +720,17 @@ func (f *Frame) atReturn(x *ssa.Return, at string, vals []*Val, st *State) {
 		if lab == "" {
 			lab = fmt.Sprintf("e%d", i)
 		}
-		t, err := env.trBool(cl.Expr)
+		cenv := env
+		if m := retOnlyRe.FindStringSubmatch(lab); m != nil {
+			// "ensures retN_<name>: e" holds at the N-th return statement only and may
+			// mention the locals in scope there: it says WHY the function may leave at
+			// that point (e.g. an enumeration stops only when it is exhausted)
+			if vc.retLabel(x) != "ret"+m[1] {
+				continue
+			}
+			cenv = f.invEnv(f.namesAt(x.Block(), names), st)
+		}
+		t, err := cenv.trBool(cl.Expr)
 		if err != nil {
 			vc.specError(fmt.Sprintf("ensures %s: %v", cl.Src, err), cl)
 			continue
@@ -732,6 +743,8 @@ func (f *Frame) atReturn(x *ssa.Return, at string, vals []*Val, st *State) {
 		_ = o
 	}
 }
+
+var retOnlyRe = regexp.MustCompile(`^ret([0-9]+)_`)
 
 // retLabel names a return statement by its ordinal among the function's returns.
 func (vc *VC) retLabel(x *ssa.Return) string {
